@@ -147,15 +147,19 @@ class Prober:
             out.append((nm, S, self.w.words(nm, 'end')))
         return out
 
-    def render(self, name, S, E, paths, prefix=(), nested=()):
+    def render(self, name, S, E, paths, prefix=(), nested=(), cross=None):
         w = self.w
         stream = []
         for nm, pS, pE in prefix:
             stream += [w.sys(nm, 1, 1, tuple(pS)), w.sys(nm, 2, 1, tuple(pE))]
+        if cross:                       # ANOTHER operation of the thread that starts before this one and ends inside it
+            stream.append(w.sys(cross[0], 1, 1, tuple(cross[1])))
         stream.append(w.sys(name, 1, 1, tuple(S)))
         for p in paths:
             stream += w.lookup(1, p, vid=7)
         stream += list(nested)          # other records of the thread inside the window
+        if cross:
+            stream.append(w.sys(cross[0], 2, 1, tuple(cross[2])))
         stream.append(w.sys(name, 2, 1, tuple(E)))
         p = new_parser(w)
         out = None
